@@ -56,6 +56,9 @@ def tasks(tier, seed):
         ts.append({"part": "mixed", "accept": accept, "line": False, "bound": 4 if q else 6, "name": "mixed/%s/sync" % accept})
     for k in range(4):
         ts.append({"part": "mixed", "accept": "one", "line": True, "bound": 2, "shard": [k, 4, 2], "name": "mixed/one/line/%d" % k})
+    # "randomly beyond": seeded random schedules of 4 senders / 3 receivers (a sampled supplement, reported separately)
+    for k in range(8):
+        ts.append({"part": "random", "k": k, "seed": seed, "n": 60 if q else 1500, "bound": None, "name": "random/%d" % k})
     return ts
 
 
@@ -129,7 +132,7 @@ def wire_of(sock):
     return b"".join(d for t, d in sock.written)
 
 
-MSGS = [b"A" * 5, b"bb" * 70, b"C" * 3]
+MSGS = [b"A" * 5, b"bb" * 70, b"C" * 3, b"D" * 9]
 
 
 class SendersHarness:
@@ -334,7 +337,40 @@ class MixedHarness:
         return tuple(o for o, p in got_w)
 
 
+def run_random(desc):
+    from ..explore import RandomChooser, as_violation
+    res = runner.new_result()
+    n = 0
+    for i in range(desc["n"]):
+        seed = (desc["seed"] * 1000003 + desc["k"]) * 100000 + i
+        kind = i % 3
+        if kind == 0:
+            h = SendersHarness({"part": "senders", "threads": 4 if i % 4 == 0 else 3, "accept": "one" if i % 2 else "half", "line": False})
+            global MSGS
+        elif kind == 1:
+            h = ReceiversHarness({"part": "receivers", "line": False})
+        else:
+            h = MixedHarness({"part": "mixed", "accept": "one", "line": False})
+        ch = RandomChooser(seed)
+        n += 1
+        try:
+            h(ch)
+        except Violation as v:
+            runner.add_failure(res, dict(v.sig, sampled=True), v.what, {"task": dict(h.d, part=h.d["part"]), "choices": list(ch.choices)})
+        except Exception as e:  # noqa
+            v = as_violation(e)
+            if v is None:
+                raise
+            runner.add_failure(res, dict(v.sig, sampled=True), v.what, {"task": dict(h.d, part=h.d["part"]), "choices": list(ch.choices)})
+    res["execs"] = res["complete"] = n
+    res["distinct"] = n
+    res["extra"]["sampled_random_schedules"] = n
+    return res
+
+
 def run_task(desc):
+    if desc["part"] == "random":
+        return run_random(desc)
     res = runner.new_result()
     part = desc["part"]
     h = {"short": ShortHarness, "senders": SendersHarness, "receivers": ReceiversHarness, "mixed": MixedHarness, "framereceivers": FrameReceiversHarness}[part](desc)
